@@ -108,6 +108,8 @@ def ref(o, p, ms):
     if op == 'mul_scalar':
         s = ms[1][0][0]
         return [[x * s for x in row] for row in a]
+    if op == 'mul_const':
+        return [[x * p['k'] for x in row] for row in a]
     if op == 'matmul':
         return matmul(a, b)
     if op == 'dot':
@@ -191,7 +193,7 @@ def ref(o, p, ms):
     raise KeyError(op)
 
 
-EXACT = {'add', 'mul', 'mul_scalar', 'matmul'}
+EXACT = {'add', 'mul', 'mul_scalar', 'mul_const', 'matmul'}
 
 
 def _build(p):
@@ -235,6 +237,11 @@ def _build(p):
         res = a * b
     elif op == 'mul_scalar':
         res = a * b[0, 0]
+    elif op == 'mul_const':
+        # scalar factor given as a Const object (minimal or explicit bitwidth) or as a plain wire of a Const
+        k = p['k']
+        kc = pyrtl.Const(k) if not p.get('kbw') else pyrtl.Const(k, bitwidth=p['kbw'])
+        res = a * kc
     elif op == 'matmul':
         res = a @ b
     elif op == 'dot':
